@@ -277,7 +277,11 @@ def plant(g, rnd, kind):
         return g, 'undefined', 'undefined symbol undef%d in the right-hand side of a rule of %s' % (nN, nts[r['lhs']]['name'])
     if kind in ('unprod_left', 'unprod_right', 'unprod_mutual', 'unprod_deep', 'unprod_unreachable', 'unprod_start'):
         a = nN
-        nts.append(dict(name='loop%d' % a, tag=''))
+        # the name of yaccgo's own start symbol is an ordinary name for a user nonterminal (and the default start symbol)
+        nm = 'start' if (rnd.random() < 0.3 and all(n['name'] != 'start' for n in nts)) else 'loop%d' % a
+        nts.append(dict(name=nm, tag=''))
+        if nm == 'start' and kind == 'unprod_start' and rnd.random() < 0.5:
+            g['implicit_start'] = True
         t0 = ('t', rnd.randrange(len(g['terms'])))
         if kind == 'unprod_left':
             g['rules'].append(dict(lhs=a, rhs=[('n', a), t0], prec=None, c=0, coef=[1, 1]))
